@@ -2,6 +2,7 @@ package main
 
 import (
 	"fmt"
+	"os"
 	"strings"
 	"time"
 
@@ -31,11 +32,14 @@ func allImmutable(o tengo.Object) bool {
 	return ok
 }
 
-func runProgram(stream, src string, mods *tengo.ModuleMap) {
+func runProgram(stream, src string, mods *tengo.ModuleMap, expectImm []string) {
 	c, err := lib.CompileSource([]byte(src), lib.CompileOpts{Modules: mods})
 	if err != nil {
 		res.Count(stream, src, false)
 		res.Dist("compile-error")
+		if os.Getenv("C09_DEBUG") != "" {
+			fmt.Fprintln(os.Stderr, "COMPILE", stream, err, "\n", src)
+		}
 		if strings.HasPrefix(err.Error(), "PANIC") {
 			res.Dist("compile-panic")
 		}
@@ -87,6 +91,7 @@ func runProgram(stream, src string, mods *tengo.ModuleMap) {
 				}
 				if bad && !reported {
 					reported = true
+					res.Dist("violation:" + stream + ":immutable-storage-changed")
 					res.Violate(lib.Violation{Signature: "immutable-storage-changed", Stream: stream,
 						Input:    map[string]interface{}{"source": src, "global": gname[gi], "first_seen_step": r.step, "changed_by_step": steps},
 						Observed: obs, Expected: exp, Oracle: "an immutable value reachable from a global keeps the contents it had when first seen (identity snapshot; full snapshot when everything reachable is immutable)"})
@@ -99,7 +104,7 @@ func runProgram(stream, src string, mods *tengo.ModuleMap) {
 			return
 		}
 		steps++
-		if fi == 0 && steps < 4000 {
+		if fi == 1 && steps < 6000 && steps%3 == 0 { // main frame
 			check()
 		}
 	}
@@ -125,6 +130,20 @@ func runProgram(stream, src string, mods *tengo.ModuleMap) {
 	}
 	tengo.VerifProbe = nil
 	check()
+	for gi, idx := range gidx {
+		for _, n := range expectImm {
+			if n != gname[gi] || globals[idx] == nil {
+				continue
+			}
+			switch globals[idx].(type) {
+			case *tengo.Array, *tengo.Map:
+				res.Dist("violation:" + stream + ":value-not-immutable")
+				res.Violate(lib.Violation{Signature: "value-not-immutable", Stream: stream, Input: map[string]interface{}{"source": src, "global": n},
+					Observed: lib.Canon(globals[idx]), Expected: "immutable-array / immutable-map",
+					Oracle: "the result of immutable(…), freeze(…), importing an exported array/map or a builtin module is an immutable container"})
+			}
+		}
+	}
 	res.Count(stream, src, len(seen) > 0)
 	if len(seen) > 0 {
 		res.Dist(stream + ":programs-with-immutables")
@@ -227,31 +246,37 @@ func (g *pgen) stmt() {
 	mapKinds := []string{"mmap", "imap", "fmap"}
 	switch g.r.Weighted([]int{5, 5, 3, 3, 6, 5, 4, 3, 8, 5, 3, 4, 3, 3}) {
 	case 0:
-		g.line(g.fresh("iarr") + " := immutable(" + g.arrLit(3, true) + ")")
+		rhs := g.arrLit(3, true)
+		g.line(g.fresh("iarr") + " := immutable(" + rhs + ")")
 	case 1:
 		if g.r.Bool() {
-			g.line(g.fresh("farr") + " := freeze(" + g.arrLit(3, true) + ")")
+			rhs := g.arrLit(3, true)
+			g.line(g.fresh("farr") + " := freeze(" + rhs + ")")
 		} else {
-			g.line(g.fresh("fmap") + " := freeze(" + g.mapLit(3, true) + ")")
+			rhs := g.mapLit(3, true)
+			g.line(g.fresh("fmap") + " := freeze(" + rhs + ")")
 		}
 	case 2:
-		g.line(g.fresh("imap") + " := immutable(" + g.mapLit(3, true) + ")")
+		rhs := g.mapLit(3, true)
+		g.line(g.fresh("imap") + " := immutable(" + rhs + ")")
 	case 3:
 		if g.r.Bool() {
-			g.line(g.fresh("marr") + " := " + g.arrLit(2, true))
+			rhs := g.arrLit(2, true)
+			g.line(g.fresh("marr") + " := " + rhs)
 		} else {
-			g.line(g.fresh("mmap") + " := " + g.mapLit(2, true))
+			rhs := g.mapLit(2, true)
+			g.line(g.fresh("mmap") + " := " + rhs)
 		}
 	case 4: // slice, then write into the slice
 		if a, ok := g.pick(arrKinds...); ok {
 			t := g.fresh("marr")
 			g.line(fmt.Sprintf("%s := %s[%s:%s]", t, a.name, lib.Pick(g.r, []string{"", "0", "1"}), lib.Pick(g.r, []string{"", "2", "3"})))
-			g.line(fmt.Sprintf("if len(%s) > 0 { %s[0] = %s }", t, t, g.lit(1, true)))
+			g.line(fmt.Sprintf("if len(%s) > 0 { %s[0] = %s }", t, t, g.lit(1, false)))
 		}
 	case 5: // append, then write / append again
 		if a, ok := g.pick(arrKinds...); ok {
 			t := g.fresh("marr")
-			g.line(fmt.Sprintf("%s := append(%s, %s)", t, a.name, g.lit(1, true)))
+			g.line(fmt.Sprintf("%s := append(%s, %s)", t, a.name, g.lit(1, false)))
 			g.line(fmt.Sprintf("%s[0] = %s", t, g.scalar()))
 			if g.r.Bool() {
 				g.line(fmt.Sprintf("%s := append(%s, %s)", g.fresh("marr"), a.name, g.scalar()))
@@ -291,9 +316,9 @@ func (g *pgen) stmt() {
 			x := a.name + sel
 			switch g.r.Intn(4) {
 			case 0:
-				g.line(fmt.Sprintf("if is_array(%s) && len(%s) > 0 { %s[0] = %s }", x, x, x, g.lit(1, true)))
+				g.line(fmt.Sprintf("if is_array(%s) && len(%s) > 0 { %s[0] = %s }", x, x, x, g.lit(1, false)))
 			case 1:
-				g.line(fmt.Sprintf("if is_map(%s) { %s.b = %s }", x, x, g.lit(1, true)))
+				g.line(fmt.Sprintf("if is_map(%s) { %s.b = %s }", x, x, g.lit(1, false)))
 			case 2:
 				g.line(fmt.Sprintf("if is_map(%s) { delete(%s, \"a\") }", x, x))
 			case 3:
@@ -302,9 +327,9 @@ func (g *pgen) stmt() {
 		}
 	case 9: // plain writes into mutable values
 		if a, ok := g.pick("marr"); ok {
-			g.line(fmt.Sprintf("if len(%s) > 1 { %s[1] = %s }", a.name, a.name, g.lit(1, true)))
+			g.line(fmt.Sprintf("if len(%s) > 1 { %s[1] = %s }", a.name, a.name, g.lit(1, false)))
 		} else if a, ok := g.pick("mmap"); ok {
-			g.line(fmt.Sprintf("%s.c = %s", a.name, g.lit(1, true)))
+			g.line(fmt.Sprintf("%s.c = %s", a.name, g.lit(1, false)))
 		}
 	case 10: // iteration, writing what the iteration hands out
 		if a, ok := g.pick(append(arrKinds, mapKinds...)...); ok {
@@ -332,6 +357,17 @@ func (g *pgen) stmt() {
 			g.line(g.fresh("iarr") + " := import(\"expa\")")
 		}
 	}
+}
+
+// immNames: the variables the generator expects to hold immutable containers.
+func (g *pgen) immNames() []string {
+	var out []string
+	for _, v := range g.vars {
+		if v.kind != "marr" && v.kind != "mmap" {
+			out = append(out, v.name)
+		}
+	}
+	return out
 }
 
 func (g *pgen) program() string {
